@@ -485,8 +485,16 @@ impl CodegenContext {
                 symbol_nx
             );
             let parent_scope = self.current_scope_nx;
-            self.symbol_definition(symbol_nx)
-                .set_location(DefinitionLocation { parent_scope, span });
+            let definition = self.symbol_definition(symbol_nx);
+            let location = DefinitionLocation { parent_scope, span };
+            match &definition.location {
+                // A variable that is assigned again stays defined where it was defined first;
+                // the later assignments are occurrences of it
+                Some(first) if ty == SymbolType::Variable && first.span != span => {
+                    definition.add_usage(location)
+                }
+                _ => definition.set_location(location),
+            }
         }
 
         Ok(symbol_nx)
